@@ -55,7 +55,7 @@ def sph_sep(p, q):
 
 def gen(tier, seed):
     pts = points(tier, seed)
-    ells = cfg.G8 if tier == 'thorough' else ['grs80', 'wgs84', 'ans', 'intl24', 'g63_280', 'g64_320']
+    ells = cfg.G8 if tier == 'thorough' else ['grs80', 'wgs84', 'ans', 'intl24', 'g63_280', 'g64_320', 'grs80_a3mm']
     for ell in ells:
         for p in pts:
             yield {'ell': ell, 'p1': list(p), 'p2s': [list(q) for q in pts if sph_sep(p, q) <= 178.0]}
